@@ -59,6 +59,24 @@ func runSolverIn(parent context.Context, s solverSpec, file string, timeoutS int
 	return "error", text, el
 }
 
+// runCover: one short z3-new run (soft limit ms, hard kill shortly after).
+func runCover(file string, ms int) (string, string) {
+	ctx, cancel := context.WithTimeout(context.Background(), time.Duration(ms+400)*time.Millisecond)
+	defer cancel()
+	cmd := exec.CommandContext(ctx, "z3-new", fmt.Sprintf("-t:%d", ms), file)
+	var out bytes.Buffer
+	cmd.Stdout = &out
+	cmd.Stderr = &out
+	_ = cmd.Run()
+	text := out.String()
+	first := strings.TrimSpace(strings.SplitN(text, "\n", 2)[0])
+	switch first {
+	case "unsat", "sat", "unknown":
+		return first, text
+	}
+	return "timeout", text
+}
+
 // solveAll discharges the obligations in parallel. Strategy per obligation: z3-new first; if it
 // does not answer unsat/sat, the other solvers are tried.
 func solveAll(ctx *SMTCtx, obls []*Obligation, dir string, timeoutS int, workers int, requireAgree bool) {
@@ -96,7 +114,9 @@ func solveAll(ctx *SMTCtx, obls []*Obligation, dir string, timeoutS int, workers
 				}
 				if strings.HasPrefix(ob.Kind, "cover") {
 					// vacuity guard: expected answer is sat; quantified contexts often give unknown
-					res, out, _ := runSolver(solvers[0], file, 2)
+					// a contradiction, if there is one, is found quickly; "sat" is rarely reported in
+					// quantified contexts, so the budget is short and hard
+					res, out := runCover(file, 1200)
 					ob.Result, ob.Solver = res, solvers[0].name
 					if res == "sat" {
 						ob.Model = modelSummary(ob, out)
@@ -157,7 +177,7 @@ func solveAll(ctx *SMTCtx, obls []*Obligation, dir string, timeoutS int, workers
 						}
 					}
 				}
-				if ob.Result != "unsat" && ob.Result != "sat" && ob.Kind != "cover" {
+				if ob.Result != "unsat" && ob.Result != "sat" && !strings.HasPrefix(ob.Kind, "cover") {
 					// no answer: look for a candidate counterexample with the quantified assumptions
 					// dropped (fewer assumptions: a model is only a candidate, to be replayed)
 					rq := relaxQuery(text, false)
